@@ -44,7 +44,8 @@ type funcContract struct {
 	abstractFloat bool       // float64 + - * / as uninterpreted functions (congruence only)
 	atifs         []*atif     // `atif "cond" iff e`: the branch condition with that source text is equivalent to e where it is evaluated
 	loopCalls     []*loopCall // `loop N calls callee#k`
-	splitReturns  bool      // one postcondition obligation per return statement instead of one over the merged exit state
+	assumeFrame   bool        // assigns clause assumed, not checked (function values of unknown purity are called)
+	splitReturns  bool     // one postcondition obligation per return statement instead of one over the merged exit state
 	opaqueArith   bool      // integer arithmetic results as declared constants with defining equations (helps quantifier triggers)
 	preciseAppend bool       // generate quantified content facts for append (needed only by functional contracts on slices)
 	decrGroup     string     // recursion group of the measure: only calls within one group are compared
@@ -256,6 +257,12 @@ func loadContractFile(c *contracts, path string, pkgpath string) error {
 		case "assigns":
 			if cur == nil {
 				return fmt.Errorf("%s:%d: clause outside func", path, r.line)
+			}
+			// `assigns assumed <targets>`: the frame is used by callers but not checked against the body (stated as an
+			// assumption in the evidence): for functions that call function values whose purity the language cannot express
+			if strings.HasPrefix(rest, "assumed ") {
+				cur.assumeFrame = true
+				rest = strings.TrimSpace(strings.TrimPrefix(rest, "assumed "))
 			}
 			for _, part := range splitTop(rest, ',') {
 				part = strings.TrimSpace(part)
